@@ -617,8 +617,15 @@ func (w *world) runConcurrent() *runResult {
 		res.outcomes = append(res.outcomes, t.results)
 		for oi, o := range t.results {
 			res.stats.Ops++
+			shown := o.Ranked
+			if addrDependent(sc.Paths[t.spec.Ops[oi].Path]) {
+				// Values derived from keyvalue ids are address distances:
+				// stable inside a process (and compared raw there), but
+				// not part of the cross-process fingerprint.
+				shown = "addr-dependent"
+			}
 			logf("result t%d op%d %s | %s | %s | %s | polls=%d steps=%d fired=%v\n",
-				t.id, oi, o.Ranked, o.Err, o.Classes, o.Panic, o.Polls, o.Steps, o.Fired)
+				t.id, oi, shown, o.Err, o.Classes, o.Panic, o.Polls, o.Steps, o.Fired)
 		}
 	}
 	runtime.KeepAlive(ballast)
@@ -682,4 +689,13 @@ func (w *world) taskMain(t *task) {
 		t.yield(parkEvent{kind: parkBoundary})
 		t.results = append(t.results, w.execOp(op, t, false))
 	}
+}
+
+// addrDependent reports whether a path can turn keyvalue ids (address
+// distances) into plain values, which no rank normalisation can follow.
+func addrDependent(pathText string) bool {
+	if !strings.Contains(pathText, "keyvalue") {
+		return false
+	}
+	return strings.Contains(pathText, "id") || strings.Contains(pathText, "*")
 }
